@@ -383,10 +383,31 @@ def main(tier: str) -> int:
         seen["ev"].append(np.array(x).copy())
         return np.sum(x, axis=1, dtype=np.float64)
     try:
-        SH.tournament_selection = lambda f, r, t, q, _o=saved[0]: (seen["t"].append((int(t), int(q))), _o(f, r, t, q))[1]
-        SH.binomialGA = lambda a, b, c, _o=saved[1]: (seen.__setitem__("b", seen["b"] + 1), _o(a, b, c))[1]
+        sh = SHAGA(fitness_function=fit, iters=4, pop_size=P, str_len=L, random_state=chk.seed)
+        seen["roles"] = []
+        seen["last_t"] = None
+
+        def wtour(f, r, t, q, _o=saved[0]):
+            seen["t"].append((int(t), int(q)))
+            res = _o(f, r, t, q)
+            seen["last_t"] = int(res[0])
+            return res
+
+        def wbin(a, b, c, _o=saved[1]):
+            i = seen["b"] % P
+            seen["b"] += 1
+            # the child of individual i: individual i is the receiver, the tournament winner the donor, CR_i the rate
+            if not (np.array_equal(a, sh._population_g_i[i]) and np.array_equal(b, sh._population_g_i[seen["last_t"]]) and float(c) == float(sh._CR[i])):
+                seen["roles"].append({"offspring_index": i, "receiver_is_individual_i": bool(np.array_equal(a, sh._population_g_i[i])),
+                                      "donor_is_selected_parent": bool(np.array_equal(b, sh._population_g_i[seen["last_t"]])), "rate_is_CR_i": float(c) == float(sh._CR[i])})
+            return _o(a, b, c)
+        SH.tournament_selection = wtour
+        SH.binomialGA = wbin
         SH.flip_mutation = lambda a, p, _o=saved[2]: (seen.__setitem__("f", seen["f"] + 1), _o(a, p))[1]
-        SHAGA(fitness_function=fit, iters=4, pop_size=P, str_len=L, random_state=chk.seed).fit()
+        sh.fit()
+        if seen["roles"]:
+            chk.fail("SHAGA does not build offspring i from individual i (receiver) and the tournament winner (donor) at rate CR_i",
+                     {"first": seen["roles"][0], "count": len(seen["roles"])}, {"fn": "wiring", "clause": "shaga_roles"})
     finally:
         SH.tournament_selection, SH.binomialGA, SH.flip_mutation = saved
     chk.count("live_SHAGA")
